@@ -31,6 +31,9 @@ CLAIMED = {
   "C08": ("path-exhaustive symbolic execution of the real sort/search code over symbolic range starts and r (all marker mixtures, all listing orders) with a z3 If-oracle of the statement; potable default start through the real parser/builder",
           "for 1..3 (thorough 1..5) ranges with symbolic starts: value, deriv and deriv2 come from the range the statement selects on every path; permuted listings agree",
           NOTE + "; excluded by design: identical start and marker; which of '>= s' / '> s' wins for r > s (statement and pinned test disagree)", "3 C08"),
+  "C10": ("symbolic execution of the real spline set-up and evaluation code with numpy.linalg.solve replaced by its contract (unknowns c, A.c == B); subterms polynomially identical to a row of A.c are rewritten to the row's right-hand side, z3 decides the remaining identities; equivalence of the three constructions by memoised solve (equal systems -> equal unknowns)",
+          "for all detach < (r_min <) attach, all end potentials (uninterpreted functions with arbitrary value/slope/curvature at the joins) and all r: C2 joins, zero slope and continuity at r_min, region dispatch, advertised shape; as.buck4 == spline() modifier == Python classes for all parameters",
+          NOTE + "; LAPACK's accuracy and singular systems are outside the claim; trusted calculus: symx/jets.py", "3 C10"),
   "C19": (SYMX % "GULP, ADP, funcfl and Excel writers",
           "same slot-level term comparison for the secondary targets (funcfl charge via a sqrt atom with Z>=0, Z^2*27.2*0.529 = r*phi)",
           NOTE + "; workbook cells read from the openpyxl object", "3 C19"),
